@@ -69,6 +69,9 @@ type Env struct {
 	fallB        *Block
 	deferInit    []string
 	useDep       bool
+	constVals    map[types.Object]Value
+	assignCount  map[types.Object]int
+	localTypes   map[string]types.Type
 }
 
 type inlineFrame struct {
@@ -195,6 +198,7 @@ func (e *Env) localName(obj types.Object) string {
 	e.nlocal++
 	n := fmt.Sprintf("%s~%d", obj.Name(), e.nlocal)
 	e.locals[obj] = n
+	e.localTypes[n] = obj.Type()
 	k, _ := kindOf(obj.Type())
 	for _, c := range compsOf(k) {
 		e.declare(n+c.Suf, c.S)
